@@ -134,8 +134,19 @@ pub struct HistCase {
 }
 
 fn hist_strategy(t: Tier) -> BoxedStrategy<HistCase> {
-    (gen::engine(), prop::bool::weighted(0.25), any::<bool>(), prop::collection::vec(crate::history::raw_cfg(t.pick(300, 1000)), 2..=5), any::<u64>())
-        .prop_map(|(eng, rs, dec, cfgs, seed)| HistCase { eng: if rs { Eng::Default } else { eng }, rs, dec, cfgs, seed })
+    // mostly cheap configurations both rates support, plus a share only ONE rate supports
+    // (a count above 32768): a reset that crosses between such configurations must still succeed
+    let one = one_rate_only().prop_map(|c| {
+        let (bounded, other) = if c.k > c.r { (c.r, c.k) } else { (c.k, c.r) };
+        RawCfg { bounded, other, flip: c.k > c.r, size: 2 }
+    });
+    let cfg = prop_oneof![12 => crate::history::raw_cfg(t.pick(300, 1000)), 1 => one];
+    (gen::engine(), prop::bool::weighted(0.25), any::<bool>(), prop::collection::vec(cfg, 2..=5), any::<u64>())
+        .prop_map(|(eng, rs, dec, cfgs, seed)| {
+            let huge = cfgs.iter().any(|c| c.bounded + c.other > 30000);
+            let eng = if rs { Eng::Default } else if huge && (eng == Eng::Naive || eng == Eng::Neon) { Eng::NoSimd } else { eng };
+            HistCase { eng, rs, dec: dec && !huge, cfgs, seed }
+        })
         .boxed()
 }
 
@@ -176,6 +187,7 @@ fn check_hist(c: &HistCase, st: &mut Stats) -> CheckResult {
     }
     st.classf("switches", switches);
     st.classf("rs", c.rs);
+    st.classf("one_rate_only_cfgs", c.cfgs.iter().filter(|c| c.bounded + c.other > 30000).count());
     if switches > 0 {
         st.nontrivial_case("reset_history", c);
     }
